@@ -40,6 +40,10 @@ def _dec(s):
 
 
 def expected_fields(**kw):
+    return kw
+
+
+def full_fields(kw):
     base = {f: None for f in FIELDS}
     base['now'] = False
     base['weekend'] = False
@@ -190,7 +194,7 @@ def run_timex(case):
     vs = []
     t = Timex(s)
     got = fields_of(t)
-    exp = case['fields']
+    exp = full_fields(case['fields']) if case['fields'] is not None else None
     if exp is not None and got != exp:
         diff = {k: [exp[k], got[k]] for k in FIELDS if exp[k] != got[k]}
         vs.append(V('PARSE_FIELDS', {'s': s, 'expected_vs_got': diff}, bucket='PARSE_FIELDS:' + case['form']))
